@@ -1,5 +1,6 @@
 from fw import PropertyCheck
 import fam_registry
+import fam_world
 
 
 class Check(PropertyCheck):
@@ -11,8 +12,9 @@ class Check(PropertyCheck):
             "Distinct by (registry, limit, cursor).")
     modelled = ["cw-storage-plus Map iteration order (lexicographic on raw key bytes) and MockApi's address codec are "
                 "third-party; the harness reports as_bytes of every asset so the model never assumes the codec",
-                "world level (the factory's Pairs query through cw-multi-test) is covered by the world family"]
+                "world level: the factory's Pairs query is walked with several page sizes inside creation / re-registration histories on the real contracts in cw-multi-test and compared with the model's registry and with the pairs that exist (mon_C19)"]
     assumptions = ["page size >= 1 for a walk (page size 0 returns an empty page and never advances)"]
 
     def families(self, rng, tier):
-        return [("registry.walk", fam_registry.walk_cases(rng.sub("walk_cases"), tier))]
+        return [("registry.walk", fam_registry.walk_cases(rng.sub("walk_cases"), tier)),
+                ("world.registry", fam_world.registry_histories(rng.sub("registry_histories"), tier))]
